@@ -378,3 +378,102 @@ func symStr(v any) string {
 	}
 	return fmt.Sprintf("%T", v)
 }
+
+// postfixCases: x++ / x-- on an integer or float operand with the named payload L yields a NEW object of the same kind
+// holding L+1 / L-1 (for float `--` the digit-preserving helper SubtractFromFloat(1) called on a fresh copy holding L,
+// its error consumed). Returns the verdict per case ("" = as specified), or decided=false when a case cannot be evaluated.
+func (m *Model) postfixCases() (bad map[string]string, decided bool, why string) {
+	bad = map[string]string{}
+	ev := m.Method("evaluator", "Evaluator", "Eval")
+	pt := m.namedType("ast", "PostfixExp")
+	errT := m.namedType("object", "Error")
+	if ev == nil || pt == nil || errT == nil {
+		return bad, false, "Eval / ast.PostfixExp not found"
+	}
+	fieldIdx := func(t *types.Named, name string) int {
+		st := t.Underlying().(*types.Struct)
+		for i := 0; i < st.NumFields(); i++ {
+			if canonFieldName(t, i, st.Field(i).Name()) == name {
+				return i
+			}
+		}
+		return -1
+	}
+	fOp, fL := fieldIdx(pt, "Operator"), fieldIdx(pt, "Left")
+	if fOp < 0 || fL < 0 {
+		return bad, false, "fields of ast.PostfixExp not found"
+	}
+	L := iSym{name: "L"}
+	for _, kind := range []string{"INTEGER", "FLOAT"} {
+		ptT, ok := m.Facts().TypeOfKind[kind].(*types.Pointer)
+		if !ok {
+			return bad, false, "no object type of kind " + kind
+		}
+		nt, _ := ptT.Elem().(*types.Named)
+		vi := fieldIdx(nt, "Value")
+		if nt == nil || vi < 0 {
+			return bad, false, "object type of kind " + kind + " has no Value"
+		}
+		for _, op := range []string{"++", "--"} {
+			key := kind + " " + op
+			lnode := iObj{"operand"}
+			node := &iStruct{typ: pt, fields: map[int]any{fOp: constant.MakeString(op), fL: lnode}}
+			operand := &iStruct{typ: nt, fields: map[int]any{vi: L}}
+			var helperRecv *iStruct
+			var helperArg, helperVal any
+			ip := &Interp{m: m, useGlobals: true}
+			ip.call = func(c *ssa.Call, args []any) (any, bool) {
+				sc := c.Call.StaticCallee()
+				if sc == ev && len(args) >= 2 && args[1] == any(lnode) {
+					return operand, true
+				}
+				if sc != nil && canonFnName(sc) == "SubtractFromFloat" && len(args) == 2 {
+					if r, ok := args[0].(*iStruct); ok {
+						helperRecv, helperArg, helperVal = r, args[1], r.fields[vi]
+					}
+					return iNil{}, true // no error
+				}
+				if sc != nil && m.InModule(sc) && sc.Signature.Results().Len() == 1 && types.Identical(sc.Signature.Results().At(0).Type(), types.NewPointer(errT)) {
+					return &iStruct{typ: errT, fields: map[int]any{}}, true
+				}
+				return nil, false
+			}
+			res, known := ip.Run(ev, []any{iObj{"evaluator"}, node, iObj{"env"}})
+			if ip.stuck != "" || len(ip.lost) > 0 {
+				return bad, false, key + ": " + ip.stuck
+			}
+			o, isO := res.(*iStruct)
+			if !known || !isO || o.typ != nt {
+				bad[key] = "the result is not an object of kind " + kind
+				continue
+			}
+			if o == operand {
+				bad[key] = "the operand object itself is changed and returned: the variable it came from changes with it"
+				continue
+			}
+			if operand.fields[vi] != any(L) {
+				bad[key] = "the operand object is written"
+				continue
+			}
+			tok := map[string]token.Token{"++": token.ADD, "--": token.SUB}[op]
+			want := iSym{op: tok, x: L, y: constant.MakeInt64(1)}
+			got, _ := o.fields[vi].(iSym)
+			if got.String() == want.String() || (op == "++" && got.String() == (iSym{op: tok, x: constant.MakeInt64(1), y: L}).String()) {
+				continue
+			}
+			// a float may also be written as 1.0
+			if kind == "FLOAT" {
+				if y, isC := got.y.(constant.Value); isC && got.op == tok && got.x == any(L) && constant.Compare(constant.ToFloat(y), token.EQL, constant.MakeFloat64(1)) {
+					continue
+				}
+			}
+			if kind == "FLOAT" && op == "--" && helperRecv == o && helperVal == any(L) {
+				if a, isC := helperArg.(constant.Value); isC && constant.Compare(a, token.EQL, constant.MakeInt64(1)) {
+					continue // SubtractFromFloat(1) on a fresh copy of the operand
+				}
+			}
+			bad[key] = fmt.Sprintf("the result's payload is `%v`, expected `%s` (L = the operand's payload)", symStr(o.fields[vi]), want)
+		}
+	}
+	return bad, true, ""
+}
